@@ -16,6 +16,9 @@ type Params struct {
 	Allow, Require, Final uint64
 	Maturity              uint64
 	Seed                  int64
+	// HardTarget starts the chain at a non-trivial difficulty (about 4096 hashes per block) so
+	// that per-branch timestamps make total work diverge from chain length.
+	HardTarget bool
 }
 
 // World is everything deterministic about a scenario: network, genesis, keys.
@@ -44,6 +47,9 @@ func seedKey(seed int64, role string) types.PrivateKey {
 func NewWorld(p Params) *World {
 	n, genesis := chain.TestnetZen()
 	n.InitialTarget = types.BlockID{0xFF}
+	if p.HardTarget {
+		n.InitialTarget = types.BlockID{0x00, 0x10}
+	}
 	n.BlockInterval = time.Second
 	if p.Maturity == 0 {
 		p.Maturity = 2
